@@ -116,6 +116,12 @@ def gen_plan(prop, base_seed, i, tier):
         others = common.pick_rows(rng, len(rows), {})
         plan["source"] = "dict"
         plan["rows"] = [{"reaction": r, "input_reaction": o, "note": "n%d" % k} for k, (r, o) in enumerate(zip(rows, others))]
+    if prop == "C18" and rng.random() < 0.2:
+        # statistics at thresholds equal to (and next to) the confidences the run itself reports
+        plan["kind"] = "thr_sweep"
+        plan["sim"].pop("faults", None)
+        plan["config"]["threshold"] = 0
+        return plan
     if prop == "C18" and rng.random() < 0.15:
         plan["source"] = "cli"
         plan["sim"].pop("faults", None)
@@ -157,6 +163,8 @@ def execute(plan):
     valid = [oracles.is_valid_row(r) for r in rows_in]
     if plan.get("kind") == "par_fault":
         return execute_par_fault(plan, rows_in)
+    if plan.get("kind") == "thr_sweep":
+        return execute_thr_sweep(plan, rows_in)
     res = runner.run_once(plan)
     out = {"violations": [], "nontrivial": None, "summary": common.run_summary(res), "runs": 1}
     rows = res["rows"]
@@ -249,6 +257,44 @@ def execute_par_fault(plan, rows_in):
         if res["fired"].get("par_task.raise"):
             out["nontrivial_many"].append("%016x" % H(sorted(rows_in), plan["config"], k))
     out["sample"] = {"rows": rows_in, "config": plan["config"], "parallel_calls_in_run": n, "worker_failure_at_calls": pts}
+    return out
+
+
+def execute_thr_sweep(plan, rows_in):
+    """C18 at thresholds equal to / next to observed confidences (where counting and deciding can disagree)."""
+    import math
+    from simworld import runner, oracles
+
+    out = {"violations": [], "nontrivial": None, "summary": [], "runs": 0, "nontrivial_many": []}
+    base = runner.run_once(plan)
+    out["runs"] += 1
+    out["summary"].append(common.run_summary(base))
+    if base["rows"] is None or len(base["rows"]) != len(rows_in):
+        return out
+    processed = [oracles.pipeline_accepts(r) for r in rows_in]
+    out["violations"] += oracles.check_c18(base["rows"], base["stats"], len(rows_in), processed)
+    confs = sorted({r["confidence"] for r in base["rows"] if r["solved_by"] == "mcs-based" and r["confidence"] is not None})
+    ts = plan.get("thresholds")
+    if ts is None:
+        ts = []
+        for c in confs[:3]:
+            ts += [c, round(c, 3), math.nextafter(c, 1.0), round(c + 0.001, 3)]
+        ts = [t for t in dict.fromkeys(ts) if 0 < t <= 1][:8]
+    for t in ts:
+        sub = common.clone(plan)
+        sub["kind"] = "run"
+        sub["config"]["threshold"] = t
+        res = runner.run_once(sub)
+        out["runs"] += 1
+        out["summary"].append(common.run_summary(res))
+        if res["rows"] is None or len(res["rows"]) != len(rows_in):
+            continue
+        for v in oracles.check_c18(res["rows"], res["stats"], len(rows_in), processed):
+            v["detail"] = "[threshold %r] " % t + v["detail"]
+            v["subplan"] = sub
+            out["violations"].append(v)
+        out["nontrivial_many"].append("%016x" % H(sorted(rows_in), plan["config"], t))
+    out["sample"] = {"rows": rows_in, "config": plan["config"], "thresholds": ts, "confidences": confs}
     return out
 
 
